@@ -219,7 +219,7 @@ def parts_source(quick: bool) -> str:
                 for ae in (False, True):
                     if quick:
                         out.append(f"def check_prune_p{i}(ab: bool, bc: bool, ca: bool, cd: bool, b_e1: bool, res_e3: bool) -> bool:\n    \"\"\"\n    post: _\n    \"\"\"\n"
-                                   f"    return _pipeline([ab, bc, ca, ab and ca, cd, b_e1, cd, {va}, {vc}, b_e1, res_e3, not res_e3], {ai}, {ae})\n")
+                                   f"    return _pipeline([ab, bc, ca, ab and ca, cd, b_e1, cd, {va}, {vc}, b_e1, res_e3, (not res_e3) and b_e1], {ai}, {ae})\n")
                     else:
                         out.append(f"def check_prune_p{i}(ab: bool, bc: bool, ca: bool, aa: bool, cd: bool, b_e1: bool, d_e2: bool, var_e5: bool, res_e3: bool, frag_e4: bool) -> bool:\n    \"\"\"\n    post: _\n    \"\"\"\n"
                                    f"    return _pipeline([ab, bc, ca, aa, cd, b_e1, d_e2, {va}, {vc}, var_e5, res_e3, frag_e4], {ai}, {ae})\n")
